@@ -190,6 +190,71 @@ def rejected_calls():
     return cases, bad
 
 
+def rejected_calls_handled():
+    """A rejected API call whose exception the application handles INSIDE the transaction body has no effect of its own:
+    when nothing else was done, the commit is empty (MDIB, lookups, versions untouched, no transaction result)."""
+    cases, bad = 0, []
+    mdib = mt.load()
+    mh = mt.metric_handles(mdib)
+    ah = mt.alert_handles(mdib)
+    ch = mt.component_handles(mdib)
+    oh = mt.operation_handles(mdib)
+    ctx_descr = sorted(d.Handle for d in mdib.descriptions.objects if d.is_context_descriptor)
+    # an entity that became stale: read, then its descriptor is removed
+    stale = {}
+    with mdib.descriptor_transaction() as tr:
+        for kind, hs in (('metric', mh), ('alert', ah), ('component', ch), ('operational', oh)):
+            stale[kind] = mdib.entities.by_handle(hs[-1])
+            if kind in ('metric', 'operational'):
+                tr.remove_descriptor(hs[-1])
+    results = []
+    mt_observe = getattr(mdib, 'transaction', None)
+    kinds = {'metric': (mdib.metric_state_transaction, mh), 'alert': (mdib.alert_state_transaction, ah),
+             'component': (mdib.component_state_transaction, ch), 'operational': (mdib.operational_state_transaction, oh)}
+    multi = mdib.entities.by_handle(ctx_descr[0])
+    calls = []
+    for kind, (ctxmgr, hs) in kinds.items():
+        other = next(k for k in kinds if k != kind)
+        good = lambda hs=hs: mdib.entities.by_handle(hs[0])   # noqa: E731
+        good2 = lambda hs=hs: mdib.entities.by_handle(hs[1])  # noqa: E731
+        wrong = lambda other=other: mdib.entities.by_handle(kinds[other][1][0])   # noqa: E731
+        calls.append((f'{kind}: write_entities [valid, multi-state]', ctxmgr, lambda m, g=good: m.write_entities([g(), multi])))
+        calls.append((f'{kind}: write_entities [valid, wrong kind]', ctxmgr, lambda m, g=good, w=wrong: m.write_entities([g(), w()])))
+        calls.append((f'{kind}: write_entities [valid, valid, wrong kind]', ctxmgr,
+                      lambda m, g=good, g2=good2, w=wrong: m.write_entities([g(), g2(), w()])))
+        if kind in ('metric', 'operational'):
+            calls.append((f'{kind}: write_entities [valid, entity of a removed descriptor]', ctxmgr,
+                          lambda m, g=good, k=kind: m.write_entities([g(), stale[k]])))
+        calls.append((f'{kind}: write_entity wrong kind', ctxmgr, lambda m, w=wrong: m.write_entity(w())))
+        calls.append((f'{kind}: get unknown', ctxmgr, lambda m: m.get_state('nope')))
+    calls.append(('context: mk for non-context descriptor', mdib.context_state_transaction, lambda m: m.mk_context_state(mh[0])))
+    calls.append(('context: get unknown', mdib.context_state_transaction, lambda m: m.get_context_state('nope')))
+    calls.append(('descriptor: get unknown', mdib.descriptor_transaction, lambda m: m.get_descriptor('nope')))
+    calls.append(('descriptor: add existing', mdib.descriptor_transaction,
+                  lambda m: m.add_descriptor(copy.deepcopy(mdib.descriptions.handle.get_one(mh[0])))))
+    for name, ctxmgr, call in calls:
+        cases += 1
+        before = mt.snapshot(mdib)
+        raised = None
+        try:
+            with ctxmgr() as mgr:
+                try:
+                    call(mgr)
+                except Exception as ex:  # noqa: BLE001  (the application handles the rejection and goes on)
+                    raised = ex
+        except Exception as ex:  # noqa: BLE001
+            bad.append({'key': f'handled-rejection-breaks-the-commit:{name}', 'detail': f'{name}: commit raised {ex!r}'[:300]})
+            continue
+        if raised is None:
+            bad.append({'key': f'invalid-call-accepted:{name}', 'detail': f'{name}: accepted'})
+            continue
+        after = mt.snapshot(mdib)
+        if after != before:
+            bad.append({'key': f'rejected-call-has-an-effect:{name.split(":")[1].strip()}',
+                        'detail': f'{name}: rejected with {type(raised).__name__}, but the commit changed {mt.diff(before, after)[:3]}'})
+    return cases, bad
+
+
 def nested_isolation():
     """Objects handed out (transaction getters, entity getters, transaction results) are private at every depth."""
     cases, bad = 0, []
@@ -315,6 +380,7 @@ if __name__ == '__main__':
     c = Collector()
     c.run('C03.abort_everywhere', 'B', abort_everywhere, bound='6 transaction kinds x abort after 0..5 API calls / nested writes; full MDIB + index snapshot compared')
     c.run('C03.rejected_calls', 'B', rejected_calls, bound='10 rejected API calls over 3 transaction kinds')
+    c.run('C03.rejected_calls_handled', 'B', rejected_calls_handled, bound='27 rejected API calls (write_entities with an invalid entity that is not the first one, wrong kind, stale entity, unknown handles) handled inside the body of 6 transaction kinds')
     c.run('C03.nested_isolation', 'B', nested_isolation, bound='5 aliasing scenarios on nested attribute paths')
     c.run('C03.commit_failure', 'B', commit_failure, bound='observer raising during commit')
     c.emit()
